@@ -30,6 +30,7 @@ class Profile:
         self.no_handle_peeks = False  # CSV: read the state from the file, probe only now and then
         self.allow_no_time = True
         self.failing_batches = True
+        self.extra_field_vals = []
         self.min_ops, self.max_ops = 5, 25
         self.probe_every = 1  # probe after every n-th mutating op
         self.max_rows = MAX_ROWS
@@ -91,14 +92,14 @@ def gen_write_op(rng, model, prof):
         op["via"] = "h"
         op["m"] = m
     if kind == "insert":
-        op["p"] = gen.gen_point(rng, prof.meas, prof.allow_no_time, extra_meas=prof.extra_meas, extra_tag_vals=prof.extra_tag_vals, extra_tag_keys=prof.extra_tag_keys, extra_field_keys=prof.extra_field_keys, grid=prof.grid)
+        op["p"] = gen.gen_point(rng, prof.meas, prof.allow_no_time, extra_meas=prof.extra_meas, extra_tag_vals=prof.extra_tag_vals, extra_tag_keys=prof.extra_tag_keys, extra_field_keys=prof.extra_field_keys, grid=prof.grid, extra_field_vals=prof.extra_field_vals)
         if not via_h and rng.random() < 0.15:
             op["m"] = rng.choice(names)
         if rng.random() < 0.3 and not via_h:
             op["compact"] = True
     elif kind == "insert_multiple":
         k = max(0, min(rng.choice([0, 1, 2, 3]), prof.max_rows - n))
-        op["ps"] = [gen.gen_point(rng, prof.meas, prof.allow_no_time, extra_meas=prof.extra_meas, extra_tag_vals=prof.extra_tag_vals, extra_tag_keys=prof.extra_tag_keys, extra_field_keys=prof.extra_field_keys, grid=prof.grid) for _ in range(k)]
+        op["ps"] = [gen.gen_point(rng, prof.meas, prof.allow_no_time, extra_meas=prof.extra_meas, extra_tag_vals=prof.extra_tag_vals, extra_tag_keys=prof.extra_tag_keys, extra_field_keys=prof.extra_field_keys, grid=prof.grid, extra_field_vals=prof.extra_field_vals) for _ in range(k)]
         if not via_h and rng.random() < 0.15:
             op["m"] = rng.choice(names)
         if rng.random() < 0.3 and not via_h:
@@ -210,7 +211,7 @@ class HistoryRunner:
             while n_seed > 60:
                 # big databases are seeded in batches (also exercises insert_multiple with many points)
                 k = rng.choice([37, 64, 129]) if prof.max_rows <= 1000 else rng.choice([129, 500, 1000, 1024])
-                ps = [gen.gen_point(rng, prof.meas, False, extra_meas=prof.extra_meas, extra_tag_vals=prof.extra_tag_vals, extra_tag_keys=prof.extra_tag_keys, extra_field_keys=prof.extra_field_keys, grid=prof.grid) for _ in range(k)]
+                ps = [gen.gen_point(rng, prof.meas, False, extra_meas=prof.extra_meas, extra_tag_vals=prof.extra_tag_vals, extra_tag_keys=prof.extra_tag_keys, extra_field_keys=prof.extra_field_keys, grid=prof.grid, extra_field_vals=prof.extra_field_vals) for _ in range(k)]
                 for sp in ps:
                     sp["fields"]["seq"] = seq  # a unique sequence number: lets a removal leave exactly N survivors
                     seq += 1
@@ -223,7 +224,7 @@ class HistoryRunner:
                     res.count("trim_to_exact_size")
                     self._probe(s)
             for _ in range(max(0, n_seed)):
-                op = {"op": "insert", "p": gen.gen_point(rng, prof.meas, False, extra_meas=prof.extra_meas, extra_tag_vals=prof.extra_tag_vals, extra_tag_keys=prof.extra_tag_keys, extra_field_keys=prof.extra_field_keys, grid=prof.grid)}
+                op = {"op": "insert", "p": gen.gen_point(rng, prof.meas, False, extra_meas=prof.extra_meas, extra_tag_vals=prof.extra_tag_vals, extra_tag_keys=prof.extra_tag_keys, extra_field_keys=prof.extra_field_keys, grid=prof.grid, extra_field_vals=prof.extra_field_vals)}
                 self._write(s, op)
             for step in range(n_ops):
                 op = gen_write_op(rng, s.model, prof)
